@@ -325,11 +325,101 @@ def _replay_e2e(vals_list, mask, third):
     return False, last
 
 
+# ------------------------------------------------------------------ conditioning > 0: what the pseudo-inverse is asked to do
+class PinvRecorder(npx.LinAlg):
+    """numpy.linalg.pinv / scipy.linalg.pinv / pinvh as opaque functions of their matrix argument that RECORD how they
+    were called: the truncated pseudo-inverse itself is LAPACK, but which matrix it is taken of, and that the threshold
+    is the user's conditioning RELATIVE to the largest singular value (numpy's rcond / rtol), is AOtools code."""
+    calls = []
+
+    @staticmethod
+    def _opaque(a, tag):
+        a = core.obj(a)
+        import hashlib
+        hsh = hashlib.md5("|".join(z(Sym.lift(e).re).sexpr() for e in a.flat).encode()).hexdigest()[:10]
+        P = numpy.empty((a.shape[1], a.shape[0]), dtype=object)
+        for i in range(P.shape[0]):
+            for j in range(P.shape[1]):
+                P[i, j] = Sym(z3.Real("pinv!%s!%s[%d,%d]" % (tag, hsh, i, j)))
+        return P.view(core.SA)
+
+    @staticmethod
+    def pinv(a, rcond=None, hermitian=False, rtol=None, atol=None, **kw):
+        PinvRecorder.calls.append(dict(fn="pinv", a=core.obj(a), relative=rcond if rcond is not None else rtol, absolute=atol, kw=kw))
+        return PinvRecorder._opaque(a, "p")
+
+    @staticmethod
+    def pinvh(a, atol=None, rtol=None, lower=True, return_rank=False, check_finite=True):
+        PinvRecorder.calls.append(dict(fn="pinvh", a=core.obj(a), relative=rtol, absolute=atol, kw={}))
+        return PinvRecorder._opaque(a, "h")
+
+
+def _replay_conditioning(n_on, n_off):
+    """real code against numpy's documented truncated pseudo-inverse on matrices with a wide singular spectrum,
+    conditioning values between the singular-value ratios"""
+    sc = _sc()
+    N = 2 * n_on + n_off
+    rng = numpy.random.RandomState(3)
+    bad = []
+    for scale in (1.0, 1e-3, 50.0):
+        Q, _ = numpy.linalg.qr(rng.standard_normal((N, N)))
+        spec = scale * numpy.array([10.0 ** (-k) for k in range(N)])
+        C = (Q * spec).dot(Q.T)
+        C = (C + C.T) / 2
+        off = C[2 * n_on:, 2 * n_on:]
+        on = C[:2 * n_on, 2 * n_on:]
+        sv = numpy.linalg.svd(off, compute_uv=False)
+        for k in range(1, len(sv)):
+            cond = float(numpy.sqrt(sv[k] / sv[0] * sv[k - 1] / sv[0]))     # between two singular-value ratios
+            R = numpy.asarray(sc.create_tomographic_covariance_reconstructor(C.copy(), n_on, cond))
+            want = on.dot(numpy.linalg.pinv(off, rcond=cond))
+            if R.shape != want.shape or not numpy.allclose(R, want, rtol=1e-6, atol=1e-9 * numpy.abs(want).max()):
+                bad.append("scale %g, conditioning %.3g: not C_on,off . pinv(C_off,off, rcond=conditioning)" % (scale, cond))
+    return bool(bad), dict(what="; ".join(bad[:4]) or "ok", n_on=n_on, off_axis_slopes=n_off)
+
+
+def case_conditioning(ctx, n_on, n_off_slopes):
+    sc = _sc()
+    N = 2 * n_on + n_off_slopes
+    C = symm("C", N)
+    cond = var("cond")
+    pre = [z(cond.re) > 0, z(cond.re) < 1]
+    ctx.encoded(sc.create_tomographic_covariance_reconstructor)
+    ctx.bounds.update(on_axis_subaps=n_on, off_axis_slopes=n_off_slopes, conditioning="symbolic in (0,1)", matrix="symmetric, every entry a free real")
+    ctx.assume("the truncated pseudo-inverse itself (LAPACK SVD) is an opaque function of its matrix argument; numpy's rcond semantics define 'the retained singular subspace'")
+    proxy = npx.NP()
+    proxy.linalg = PinvRecorder()
+    del PinvRecorder.calls[:]
+    with npx.symbolic(sc, proxy=proxy):
+        R = numpy.asarray(sc.create_tomographic_covariance_reconstructor(C, n_on, cond), dtype=object)
+    ctx.paths += 1
+    calls = list(PinvRecorder.calls)
+    rp = lambda m: harness.pristine_call(_replay_conditioning, n_on, n_off_slopes)
+    on = C[:2 * n_on, 2 * n_on:]
+    off = C[2 * n_on:, 2 * n_on:]
+    if len(calls) != 1:
+        ctx.prove("exactly one pseudo-inverse is taken (got %d)" % len(calls), pre, z3.BoolVal(False), replay=rp, axioms=False)
+        return
+    c = calls[0]
+    ctx.prove("the pseudo-inverse is taken of C_off,off", pre, all_eq(c["a"], off) if c["a"].shape == off.shape else z3.BoolVal(False), replay=rp)
+    rel, ab = c["relative"], c["absolute"]
+    g = []
+    g += eqs(Sym.lift(rel), cond) if rel is not None else [z3.BoolVal(False)]
+    if ab is not None:
+        g += eqs(Sym.lift(ab), Sym(0))
+    ctx.prove("singular values are cut at conditioning x the largest one (relative threshold = the user's conditioning, no absolute threshold)", pre, conj(g), replay=rp)
+    P = PinvRecorder._opaque(c["a"], "p" if c["fn"] == "pinv" else "h")
+    ctx.prove("reconstructor = C_on,off . pinv(C_off,off)", pre, all_eq(R, on.dot(P)) if R.shape == (2 * n_on, n_off_slopes) else z3.BoolVal(False), replay=rp)
+    ctx.prove("guard: a conditioning exists", pre, z3.BoolVal(False), expect="sat", kind="vacuity", axioms=False)
+
+
 def build_cases(tier):
     cases = []
     combos = [(1, 2), (1, 3), (1, 4), (2, 4)] if tier == "quick" else [(1, 2), (1, 3), (1, 4), (2, 4), (1, 5), (1, 6), (2, 5), (3, 6)]
     for n_on, n_off in combos:
         cases.append(("normal/n_on=%d/off=%d" % (n_on, n_off), case_normal, dict(n_on=n_on, n_off_slopes=n_off)))
+    for n_on, n_off in ([(1, 2), (1, 4)] if tier == "quick" else [(1, 2), (1, 4), (2, 4), (2, 6)]):
+        cases.append(("conditioning/n_on=%d/off=%d" % (n_on, n_off), case_conditioning, dict(n_on=n_on, n_off_slopes=n_off)))
     cases.append(("method", case_method, {}))
     cases.append(("method-after-rebuild/threads=1", case_method_rebuild, dict(threads=1)))
     cases.append(("method-after-rebuild/threads=2", case_method_rebuild, dict(threads=2)))
